@@ -450,9 +450,8 @@ def main(argv):
     ]
     pairs.append(("everything set, then nothing set", {"color_format": "glyf_colr_1", "upem": 2048, "ascender": 1900, "descender": -500, "linegap": 90, "width": 2600, "version_major": 3, "version_minor": 7,
                                                           "keep_glyph_names": True, "clipbox_quantization": 64, "family": "Set Everything"}, {"_bare": True}))
-    if tier == "quick":
-        pairs = [pairs[0], pairs[1 + report.seed % 3], pairs[4], pairs[5]]
-    with ThreadPoolExecutor(max_workers=5) as ex:
+    # (every pair in the quick tier too: seeded changes used to slip through when the quick tier drew three of them)
+    with ThreadPoolExecutor(max_workers=6) as ex:
         pres = list(ex.map(pair_job, pairs))
     for r in pres:
         report.count(("pair", r["pair"]), True)
